@@ -920,15 +920,25 @@ func TestVerifC15(t *testing.T) {
 			s := c13randSet(r, 2, nt, nn)
 			// sometimes refer to another named set (sharing the node), possibly forming a cycle
 			if r.Intn(3) == 0 {
-				s = &TokenSet{Kind: Union, Origin: c13node("u"), Sub: []*TokenSet{s, m.Sets[r.Intn(len(m.Sets))]}}
+				ref := m.Sets[r.Intn(len(m.Sets))]
+				if r.Intn(3) == 0 {
+					// the reference sits under an intersection with a broad set (ref & ~t): cycles through
+					// such a node take the iterative path of the closure, which may need several passes
+					// (seeded change C15-r14m2 stopped as soon as the last node of the component was stable)
+					ref = &TokenSet{Kind: Intersection, Origin: c13node("i"), Sub: []*TokenSet{ref, {Kind: Complement, Origin: c13node("c"), Sub: []*TokenSet{{Kind: Any, Symbol: 1 + r.Intn(nt-1), Origin: c13node("s")}}}}}
+				}
+				s = &TokenSet{Kind: Union, Origin: c13node("u"), Sub: []*TokenSet{s, ref}}
 			}
 			m.Sets = append(m.Sets, s)
 		}
 		if len(m.Sets) > 2 && r.Intn(4) == 0 {
 			// back reference: set1 also includes the last set (cycle through unions, or through a complement)
 			last := m.Sets[len(m.Sets)-1]
-			if r.Intn(3) == 0 {
+			switch r.Intn(4) {
+			case 0:
 				last = &TokenSet{Kind: Complement, Origin: c13node("c"), Sub: []*TokenSet{last}}
+			case 1:
+				last = &TokenSet{Kind: Intersection, Origin: c13node("i"), Sub: []*TokenSet{last, {Kind: Complement, Origin: c13node("c"), Sub: []*TokenSet{{Kind: Any, Symbol: 1 + r.Intn(nt-1), Origin: c13node("s")}}}}}
 			}
 			if m.Sets[1].Kind == Union {
 				m.Sets[1].Sub = append(m.Sets[1].Sub, last)
